@@ -9,6 +9,7 @@ from sa import source
 from sa.cfg import cfg_of, guards
 from sa.classes import ActorModel, is_failure_send
 from sa.source import AnchorMissing, dotted, inline, is_self_attr, last_attr, local_defs, package_calls, params_of, short, u, walk_body
+from sa.sym import parse_expr, rat_equal
 
 _D = "esrally/driver/driver.py"
 
@@ -19,6 +20,28 @@ def _has_jump(loop):
         if isinstance(n, (ast.Break, ast.Continue, ast.Return)):
             return True
     return False
+
+
+def executor_wiring(chk, rid, drv):
+    """AsyncIoAdapter.run hands each executor the client id of ITS row pair (not the allocation's logical slot) and the worker's shared sampler — shared with C04 / C07:
+    samples are filed under the id given here."""
+    AD = drv.cls("AsyncIoAdapter")
+    arun = drv.methods(AD).get("run")
+    al = [n for n in walk_body(arun) if isinstance(n, ast.For) and is_self_attr(n.iter, "task_allocations")] if arun is not None else []
+    if not al or not isinstance(al[0].target, ast.Tuple):
+        raise AnchorMissing("`for client_id, task_allocation in self.task_allocations` in AsyncIoAdapter.run")
+    cidv = al[0].target.elts[0].id
+    exs = [n for n in ast.walk(al[0]) if isinstance(n, ast.Call) and last_attr(n.func) == "AsyncExecutor"]
+    if not exs:
+        raise AnchorMissing("AsyncExecutor(...) in AsyncIoAdapter.run")
+    einit = drv.methods(drv.cls("AsyncExecutor")).get("__init__")
+    b = source.bind_args(exs[0], einit)
+    ep = [p for p in params_of(einit) if p != "self"]
+    ok = u(b.get(ep[0])) == cidv and u(b.get("sampler")) == "self.sampler"
+    chk.ob(rid, "executor is created with the client id of its row pair and the worker's sampler", ok, exs[0], f"{ep[0]}={u(b.get(ep[0]))} sampler={u(b.get('sampler'))}",
+           key="esrally/driver/driver.py:AsyncIoAdapter.run:executor-client-id")
+    st = [n for n in walk_body(einit) if isinstance(n, ast.Assign) and is_self_attr(n.targets[0]) and u(n.value) == ep[0]]
+    chk.ob(rid, "executor keeps the id it was given", len(st) == 1 and st[0].targets[0].attr == ep[0], st[0] if st else einit, "", key="esrally/driver/driver.py:AsyncExecutor.__init__:client-id")
 
 
 def run(chk):
@@ -232,6 +255,29 @@ def run(chk):
               and isinstance(n.targets[0].slice, ast.Name) and n.targets[0].slice.id == params_of(jr)[1]]
     chk.ob("O1.2b", "per-step map keyed by the arriving worker's id", bool(stores) and not guards(stores[0]), stores[0] if stores else jr, short(stores[0], 70) if stores else "")
     stepmap = stores[0].targets[0].value.attr if stores else None
+    # the entry is (worker's own timestamp, coordinator's receive time); the start time sent back is worker_ts + (start - received): the same pair order at writer and reader
+    ok = False
+    detail = ""
+    if stores and isinstance(stores[0].value, ast.Tuple) and len(stores[0].value.elts) == 2:
+        e0, e1 = stores[0].value.elts
+        w_ok = isinstance(e0, ast.Name) and e0.id == params_of(jr)[2] and isinstance(e1, ast.Call) and (dotted(e1.func) or "").startswith("time.")
+        dcall = source.calls_in(mv, attr="drive_at")
+        unp = [n for n in walk_body(mv) if isinstance(n, ast.Assign) and isinstance(n.targets[0], ast.Tuple) and len(n.targets[0].elts) == 2 and isinstance(n.value, ast.Subscript)
+               and isinstance(n.value.value, ast.Name) and n.value.value.id in params_of(mv) and all(isinstance(t, ast.Name) for t in n.targets[0].elts)]
+        if w_ok and dcall and unp and len(dcall[0].args) >= 2:
+            A, B = (t.id for t in unp[0].targets[0].elts)
+            mdefs = local_defs(mv)
+            inl = source.inline_node(dcall[0].args[1], mdefs, no_calls=True)
+            free = {n.id for n in ast.walk(inl) if isinstance(n, ast.Name)} - {A, B}
+            if len(free) == 1:
+                S = next(iter(free))
+                sdef = mdefs.get(S)
+                ok = rat_equal(inl, parse_expr(f"{A} + {S} - {B}")) and sdef is not None and any(isinstance(x, ast.Call) and (dotted(x.func) or "") == dotted(e1.func) for x in ast.walk(sdef))
+            detail = f"written ({u(e0)}, {short(e1, 30)}), read as ({A}, {B}), start time sent: {u(inl)}"
+        else:
+            detail = "writer is not (worker timestamp parameter, clock read) or the reader does not unpack the pair"
+    chk.ob("O1.2b", "start time == worker's timestamp + (coordinator's start - coordinator's receive time), pair read in the order written", ok, stores[0] if stores else jr, detail,
+           key="esrally/driver/driver.py:Driver.move_to_next_task:start-time-pair")
 
     # ---- O1.3 completion exactly once ------------------------------------------------------------------------------
     chk.rule("O1.3", "BenchmarkComplete is constructed at one site reached only behind barrier-complete and finished; the step attribute is incremented exactly "
@@ -349,6 +395,10 @@ def run(chk):
         ok = all(source.enclosing_func(x) is mc for x in callers) and bool(callers)
         chk.ob("O1.4", "CompleteCurrentTask constructed only for may_complete_current_task", ok, c, f"callers {[source.qualname(x) for x in callers]}")
 
+    from rules.C02 import joinpoint_lists_reset
+
+    joinpoint_lists_reset(chk, "O1.4", drv)
+
     # ---- O1.5 worker side of the barrier ------------------------------------------------------------------------------------------
     chk.rule("O1.5", "JoinPointReached is sent only in the join-point branch of the worker's drive routine, after waiting for the executor future (if any), "
              "shipping samples and clearing both events (cancel, complete)", 5,
@@ -429,6 +479,41 @@ def run(chk):
         chk.ob("O1.6", f"executor signals completion when {cause.split('.')[-1]}", have, ex_call,
                "complete.set() in the finally under this cause" if have else "no complete.set() for this cause: sibling clients in the same worker keep running, no worker reaches the join point, the race hangs",
                key=f"{_D}:AsyncExecutor.__call__:cause:{cause}")
+
+    # the complete event may end the request loop only for a task that does not itself complete its parent: several clients of the completing task share the
+    # worker's event, and the first of them to finish sets it
+    from sa import pat as _pat
+    xloops = [n for n in walk_body(ex_call) if isinstance(n, (ast.AsyncFor, ast.For, ast.While))]
+    if not xloops:
+        raise AnchorMissing("request loop in AsyncExecutor.__call__")
+    XL = xloops[0]
+
+    def _reads_complete(e):
+        return any(isinstance(x, ast.Call) and u(x.func) == "self.complete.is_set" for x in ast.walk(e))
+
+    def _exempt(node):
+        return any(inline(f_, edefs) in ("not self.task.completes_parent",) for f_ in _pat.fact_nodes(node, stop=XL))
+
+    exits = [n for n in ast.walk(XL) if isinstance(n, (ast.Break, ast.Return)) and source.enclosing(n, (ast.AsyncFor, ast.For, ast.While)) is XL]
+    n_ctl = 0
+    for ex_ in exits:
+        for t, pol in guards(ex_, stop=XL):
+            sites = []
+            if _reads_complete(t):
+                sites.append(source.enclosing_stmt(t))
+            for nm in {x.id for x in ast.walk(t) if isinstance(x, ast.Name)}:
+                for a_ in ast.walk(XL):
+                    if isinstance(a_, ast.Assign) and any(isinstance(tg, ast.Name) and tg.id == nm for tg in a_.targets) and _reads_complete(a_.value):
+                        sites.append(a_)
+            for st_ in sites:
+                n_ctl += 1
+                ok = _exempt(st_)
+                chk.ob("O1.6", "executor: the complete event ends the loop only when the task does not complete its parent itself", ok, st_,
+                       f"`{short(st_, 70)}` controls `{type(ex_).__name__.lower()}` at line {ex_.lineno}" + ("" if ok else " for every task, including the completing task's own clients"),
+                       key=f"{_D}:AsyncExecutor.__call__:complete-read:{short(st_, 60)}")
+    if n_ctl == 0:
+        chk.ob("O1.6", "executor: the request loop of a non-completing task ends on the complete event", False, XL, "no loop exit depends on complete.is_set(): completed-by never ends the other tasks",
+               key=f"{_D}:AsyncExecutor.__call__:complete-read:none")
 
     # Worker handler: truth table over (J = at join point, S = Drive received but start wake-up pending)
     from sa.sym import UnknownAtom, truth_table
